@@ -287,8 +287,10 @@ class C13(Prop):
                     World.lookup_cache(True)
                 self.compare(w, got2, byid, value, [p], is_case, is_re, key, hier, "%s/%s_nocache" % (disc, kind))
         # several patterns: union, in any order
-        if len(vals) >= 2:
-            a, b = pr.sample(vals, 2)
+        if len(vals) >= 1:
+            # (with a single value in U - e.g. the one netlist every root resolves to - the two-exact combination
+            # uses a second name that matches nothing)
+            a, b = pr.sample(vals, 2) if len(vals) >= 2 else (vals[0], vals[0] + "_absent")
             for combo, kind in (([a, b], "two_exact"), ([a, a[:1] + "*"], "exact_plus_overlapping_wild"),
                                 ([a, a], "repeated")):
                 g1 = uniq(run(patterns=list(combo)), kind)
